@@ -194,3 +194,5 @@ check("C01",
       level_text="exhaustive within the deviation bound over held protocol events; graphsync's internal goroutine schedule between two quiescent points is the Go runtime's",
       level_note="graphsync and libp2p mocknet run for real (uninstrumented); payloads <= 6 blocks")
 CHECKS["C20"]["packages"] = ["l2transport", "schedh"]
+CHECKS["C20"]["packages"] = ["l2transport", "schedh", "l2node"]
+CHECKS["C20"]["packages"] = ["l2transport", "schedh", "l2node", "l3e2e"]
